@@ -481,7 +481,12 @@ def timezone_name(dt, version=LATEST_VER):
     # Easy case: pytz timezone.
     try:
         tz_name = dt.tzinfo.zone
-        return tz_rmap[tz_name]
+        haystack_name = tz_rmap[tz_name]
+        # The zone must really have the value's offset at that instant (a pytz
+        # zone attached without localize() carries its LMT offset).
+        if dt.astimezone(pytz.utc).astimezone(dt.tzinfo).utcoffset() \
+                == dt.utcoffset():
+            return haystack_name
     except KeyError:
         # Not in timezone map
         pass
